@@ -29,10 +29,10 @@ def main(tier, replay=None):
     for kind, tree in (("plain", src), ("sanitised", asan)):
         for msgs in (("l1r1",) if tier == "quick" else ("l1r1", "l3", "r2")):
             vk_run(res, "daemon", tree, rd, "0,0,0,%d" % eb, eb, 1500, "qmail-send-report-channels-%s-%s" % (msgs, kind),
-                   opts=["monitors=C04,C03", "msgs=" + msgs, "signals=0", "verdicts=KZDghueOQ", "reorder=2"] + (["concl=3"] if msgs == "l3" else []))
+                   opts=["monitors=C04,C03", "msgs=" + msgs, "signals=0", "verdicts=KZDghueOQkjzd", "reorder=2"] + (["concl=3"] if msgs == "l3" else []))
     res.rule += ("; qmail-send (real qmail-send/qmail-clean, the harness plays both spawners): while 1-3 deliveries are in flight every choice "
                  "of {success, deferral, failure, report numbered == concurrency, 255, a free slot, bare number+NUL, unknown status letter, "
-                 "12000-byte deferral} for each of the 2 oldest deliveries, up to %d deviations from all-success, on the plain and the "
+                 "12000-byte deferral, success/deferral/failure reports arriving in two pieces (cut after the number, after the status letter, inside the text)} for each of the 2 oldest deliveries, up to %d deviations from all-success, on the plain and the "
                  "sanitised build; oracle: stray reports change nothing (done-marks only after a matching verdict, every recipient still "
                  "attempted and resolved, no crash), mangled ones defer, oversized ones are truncated" % eb)
     res.rule += ("; spawners (real qmail-lspawn and qmail-rspawn, delivery programs are recording stand-ins): one command for every message id "
@@ -46,6 +46,6 @@ def main(tier, replay=None):
                  "the second command arrives cut after every byte and the first delivery finishes between the two pieces: each report carries its own delivery number; "
                  "reuse: two deliveries one after the other through the same number, every ordered pair of 9 child fates")
     res.assumptions = ["a request is valid iff it is (foop|todo)/<decimal number < 2^64> NUL with total length 7..100"]
-    res.require_nonzero("evaluations", "valid_requests", "rejected_requests", "unlink_failures_injected", "children_started", "reports_checked", "spawner_opens_checked", "reports_stray", "reports_garbage", "reports_oversized", "split_commands", "slot_reuses")
+    res.require_nonzero("evaluations", "valid_requests", "rejected_requests", "unlink_failures_injected", "children_started", "reports_checked", "spawner_opens_checked", "reports_stray", "reports_garbage", "reports_oversized", "split_commands", "slot_reuses", "reports_in_two_pieces")
     lib_conformance(res, rd, src, ['num', 'io'], tier, asan=False)
     return res.finish()
